@@ -165,6 +165,19 @@ theorem load_dump (G : Grammar) (s : G.State) : G.load (G.dump s) = some s := by
     have hword : isWordB (enumDump ks v) = true := (List.all_eq_true.1 h.2) _ hmem
     simp only [Grammar.load, Grammar.dump, words_word _ hword, enumLoad_dump ks h.1 v hv, hv, dite_true]
 
+/-! non-vacuity: the printers write the text the library writes (compare `Polyhedron::ascii_dump` output) -/
+example : String.ofList ((Grammar.linSysHeader).dump ⟨false, 2, 2, false, true, 2⟩)
+    = "topology NECESSARILY_CLOSED\n2 x 2 DENSE (sorted)\nindex_first_pending 2\n" := by decide
+example : String.ofList (dumpStatus (StatusClass.table .ph) (2 + 4 + 8 + 16 + 64))
+    = "-ZE -EM  +CM +GM  +CS +GS  -CP -GP  -SC +SG " := by decide
+example : String.ofList (dumpStatus (StatusClass.table .grid) 0) = "+ZE -EM  -CM -GM  -CS -GS  -CP -GP  -SC -SG\n" := by decide
+example : String.ofList (BitMatrix.dump ⟨2, [[false, true], [true, false]]⟩) = "2 x 2\n0 1 \n1 0 \n" := by decide
+example : String.ofList (ShapedMatrix.dump (C := extIntCodec) ⟨2, [[none, some 3], [some (-1), none]]⟩)
+    = "2 \n+inf 3 \n-1 +inf \n" := by decide
+example : BitMatrix.load "2 x 2\n0 1 \n1 0 \n".toList = some ⟨2, [[false, true], [true, false]]⟩ := by decide
+example : String.ofList (dumpBox natCodec (boxTable true) ⟨0, [((0 : Nat), (0 : Nat), (1 : Nat))]⟩)
+    = "-EUP -EM -UN space_dim 1\ninfo 0 lower 0 upper 1\n" := by decide
+
 example : enumOk mipStatusKw = true ∧ enumOk mipPricingKw = true ∧ enumOk optModeKw = true ∧ enumOk yesNoKw = true
     ∧ enumOk pipStatusKw = true ∧ enumOk pipControlKw = true := by decide
 
